@@ -461,4 +461,47 @@ mutual
     | [], _ :: _, h | _ :: _, [], h => by simp [semEqList] at h
 end
 
+/-! ### The visit sequence on the meaning tree itself (positions in flat order instead of the walkers' addresses) -/
+
+mutual
+  /-- gate applications in execution order (`Sem.unroll`), each with its position in the flat (textual) order, counted from `p` -/
+  def unrollP : Sem → Nat → List (GateApp × Nat)
+    | .gate n a, p => [((n, a), p)]
+    | .blk _ _ _ body, p => unrollPList body p
+    | .loop n b, p => (List.replicate n.toNat (unrollP b p)).flatten
+  def unrollPList : List Sem → Nat → List (GateApp × Nat)
+    | [], _ => []
+    | s :: r, p => unrollP s p ++ unrollPList r (p + s.flat.length)
+end
+
+mutual
+  theorem unrollP_fst : ∀ (m : Sem) (p : Nat), (unrollP m p).map (·.1) = m.unroll
+    | .gate n a, p => by simp [unrollP, Sem.unroll]
+    | .blk _ _ _ body, p => by simpa only [unrollP, Sem.unroll] using unrollPList_fst body p
+    | .loop n b, p => by
+      simp only [unrollP, Sem.unroll, List.map_flatten, List.map_replicate, unrollP_fst b p]
+  theorem unrollPList_fst : ∀ (l : List Sem) (p : Nat), (unrollPList l p).map (·.1) = Sem.unrollList l
+    | [], p => by simp [unrollPList, Sem.unrollList]
+    | s :: r, p => by
+      simp only [unrollPList, Sem.unrollList, List.map_append, unrollP_fst s p, unrollPList_fst r _]
+end
+
+/-- the positions (from `p`) of the `prepare_all`s that open a prepare/measure pair, in flat order -/
+def startsPFrom : List (Option Bool) → Nat → Option Nat → List Nat
+  | [], _, _ => []
+  | some true :: r, p, _ => startsPFrom r (p + 1) (some p)
+  | some false :: r, p, some s => s :: startsPFrom r (p + 1) none
+  | some false :: r, p, none => startsPFrom r (p + 1) none
+  | none :: r, p, c => startsPFrom r (p + 1) c
+
+def semStarts (m : Sem) : List Nat := startsPFrom (m.flat.map (fun g => nkind g.1)) 0 none
+
+def posOf? : List Nat → Nat → Option Nat
+  | [], _ => none
+  | s :: r, a => if s = a then some 0 else (posOf? r a).map (· + 1)
+
+/-- **the visit sequence of a meaning tree**: execute its gate applications in order (loops repeated) and emit `k` whenever the
+executed application is the `prepare_all` that opens the `k`-th prepare/measure pair of the textual order -/
+def semVisits (m : Sem) : List Nat := (unrollP m 0).filterMap (fun x => posOf? (semStarts m) x.2)
+
 end Jaqal.RunModel
